@@ -133,6 +133,14 @@ func (x *exec) reservedClass(c *wctr) bool {
 	return false
 }
 
+// underCfg evaluates a reference predicate as if configuration idx were in force.
+func (x *exec) underCfg(idx int, fn func() bool) bool {
+	cur := x.w.cfgIdx
+	x.w.cfgIdx = idx
+	defer func() { x.w.cfgIdx = cur }()
+	return fn()
+}
+
 func (x *exec) liveCtrs() []*wctr {
 	var l []*wctr
 	for _, c := range x.w.ctrs {
@@ -224,7 +232,13 @@ func oracleC01(x *exec, v *viols, pre, post *snap, rp *reply) {
 			}
 			if touch := cs.Intersection(reserved); !touch.IsEmpty() {
 				if !x.reservedClass(c) {
-					v.add("reserved-to-non-reserved", "reserved-to-non-reserved:"+class, "%s (%s view) is not reserved-class but is pinned to reserved CPUs %s (cpuset %s)", c.id(), view.name, touch, cs)
+					cl := class
+					if c.cfgAtAdm != x.w.cfgIdx && x.underCfg(c.cfgAtAdm, func() bool { return x.reservedClass(c) }) {
+						// S29: it was reserved-class under the configuration it was admitted under; an accepted update changed
+						// that and the policy re-instated the grant as it was
+						cl += ":reserved-class-when-admitted-under-earlier-configuration"
+					}
+					v.add("reserved-to-non-reserved", "reserved-to-non-reserved:"+cl, "%s (%s view) is not reserved-class but is pinned to reserved CPUs %s (cpuset %s)", c.id(), view.name, touch, cs)
 				} else if !cs.IsSubsetOf(reserved) {
 					v.add("reserved-mixed", "reserved-mixed:"+class, "%s (%s view) mixes reserved CPUs %s with others in %s", c.id(), view.name, touch, cs)
 				}
@@ -363,7 +377,11 @@ func oracleC03(x *exec, v *viols, pre, post *snap, rp *reply) {
 		d := post.Export[c.id()]
 		ex, iso := parseSet(d["EXCLUSIVE_CPUS"]), parseSet(d["ISOLATED_CPUS"])
 		if want, got := x.expectedExclusive(c), ex.Size()+iso.Size(); want != got {
-			v.add("exclusive-count", fmt.Sprintf("exclusive-count:%s:want%d:got%d", c.spec.t.name, want, got),
+			cause := ""
+			if c.cfgAtAdm != x.w.cfgIdx && x.underCfg(c.cfgAtAdm, func() bool { return x.expectedExclusive(c) == got }) {
+				cause = ":as-admitted-under-earlier-configuration" // S29
+			}
+			v.add("exclusive-count", fmt.Sprintf("exclusive-count:%s:want%d:got%d%s", c.spec.t.name, want, got, cause),
 				"%s (%s, %dm, annotations %v) should get %d exclusive CPUs by the documented eligibility rules, got %d (%s %s)", c.id(), c.pod.spec.qos, c.req.cpuReq, c.pod.spec.annotations, want, got, ex, iso)
 		}
 		if !iso.IsEmpty() && !ex.IsEmpty() {
@@ -1023,12 +1041,31 @@ func oracleC04(x *exec, v *viols, pre, post *snap, rp *reply) {
 		}
 	}
 	if rp.err == nil {
+		// what an allocation weighs is what its container needs (the request the cache reconstructed, else the limit; the
+		// limit for balloons) - not what the allocator remembers about it
+		weight := map[string]int64{}
+		for _, r := range post.MemReqs {
+			weight[r.ID] = r.Size
+			if c, ok := x.rawCache().LookupContainer(r.ID); ok {
+				rq := c.GetResourceRequirements()
+				lim := rq.Limits.Memory().Value()
+				want := lim
+				if x.scn.policy == polTA {
+					if req := rq.Requests.Memory().Value(); req != 0 {
+						want = req
+					}
+				}
+				if want > 0 {
+					weight[r.ID] = want
+				}
+			}
+		}
 		for set, capa := range post.MemCap {
 			var used int64
 			isZone := false
 			for _, r := range post.MemReqs {
 				if r.Zone&^set == 0 {
-					used += r.Size
+					used += weight[r.ID]
 				}
 				if r.Zone == set {
 					isZone = true
@@ -1310,11 +1347,6 @@ func oracleC13(x *exec, v *viols, pre, post *snap, rp *reply) {
 		oracleC05(x, sub, pre, post, rp)
 		oracleC09(x, sub, pre, post, rp)
 		for _, sv := range sub.out {
-			if sv.Oracle == "exclusive-count" {
-				// eligibility is decided when a container is admitted; existing grants are reinstated as they are
-				// on reconfiguration, and the property does not ask for re-evaluation of preferences
-				continue
-			}
 			sv.Signature = "after-accepted-config/" + sv.Signature
 			sv.Oracle = "after-accepted-config/" + sv.Oracle
 			v.out = append(v.out, sv)
